@@ -41,6 +41,11 @@ CHECKS = {
             "For every program of a 10k-filter corpus (every operator, index kind, call shape, literal form; all 1-3 operator boolean structures): every alias assignment of the first 8 operator occurrences x whitespace layouts (minimal, single, double, LF, CR/LF mix, each gap alone, Unicode whitespace around) must give equal ASTs, byte-identical JSON equal to the reference document, identical C-API hash and identical std Hash; serialising twice is identical; over the whole set the map JSON -> structure is injective.",
             "Reference serialiser harness/src/sem.rs::expr_json; whitespace alphabet as documented (space, CR, LF between tokens).",
             "DESIGN.md §5 C07"),
+    "C08": ("model_checking",
+            "explicit-state BFS (to fixpoint in the thorough tier) over context operations executed on real contexts, against a reference map",
+            "States: up to two live contexts (on scheme A / its clone / a structurally identical scheme B) x four fields (Int, Bytes, Array(Int), Map(Array(Bytes))) x three values each - 13 203 reachable states in the thorough tier (fixpoint), depth 5 in the quick tier. Transitions: set through a field reference of each of the three schemes and by name with 5-7 values per field (well-typed, wrong primitive, right container / wrong element, wrong depth, wrong container), unknown names, clear, clone_with, new context on the twin scheme, take_with, borrow_with{0-2 inner sets}drop, drop. Every transition runs on real contexts rebuilt from the state; results (previous value / failure) and every observation (all reads, deep type walk, serialisation, equality, five filters and three value expressions of all three schemes on every context: value or scheme mismatch) are compared with the reference. Builders (Array::try_from_iter / try_from_vec, Map::try_from_iter) over 1 458 element-type / element-list combinations.",
+            "A context's state is what it serialises to plus its scheme; merged states are rebuilt by plain sets (validated at every BFS step).",
+            "DESIGN.md §5 C08"),
     "C09": ("exploration",
             "exhaustive enumeration of all lists up to a length bound over small ordered domains x all probes",
             "All lists of <=4 (quick) / <=5 (thorough) items over all 29 ranges of a 7-point i64 domain (extremes, adjacent and far points) x 13 probes + absent; all lists of <=3 / <=4 items over 45 IPv4/IPv6 items (addresses, CIDRs where the range is one, explicit ranges, ::/0, mapped block) x 22 probes of both families; all byte-string lists of <=4 over 6 strings in three literal forms; long lists (all items in several orders, all-but-one); mapped and indexed left-hand sides. Oracle: exists item with lo <= x <= hi in x's family.",
@@ -56,6 +61,26 @@ CHECKS = {
             "Every regex of <=4 (quick) / <=5 (thorough) nodes over {a,b,.,[ab],[^a],[\"],[\\]\"],\\x61,\",^,$} with ?,*,+,|,groups, in quoted and raw form, x every value of length <=3 over {a,b,A,\",LF,0xff}: result equals a backtracking reference matcher and the pattern stored in the JSON is the intended one; invalid regexes rejected; compiled-size limits {0,64,1024,65536,default} x dfa limits {0,default}: no panic, unchanged answers, monotone acceptance. Every wildcard pattern of length <=4/5 over {a,A,b,*,\\,?} x both operators x raw/quoted x every value of length <=3/4 (incl. 0xff): validity (escapes, **), case rule and whole-value matching per the reference; star limits 0..4.",
             "Reference matchers harness/src/rx.rs; regex features outside the subset are not explored.",
             "DESIGN.md §5 C11"),
+    "C14": ("exploration",
+            "exhaustive context families x six feeds against a reference serialiser / reader; complete single-mutation neighbourhoods of document trees",
+            "Every context with <=2 fields deviating from a base over 21 fields of every type shape up to depth 3 (absent, empty / singleton / ragged containers, i64 extremes, non-UTF-8 bytes and map keys, v4/v6/mapped addresses) and single-field contexts, with empty and populated list-matcher state, on a scheme with lists and on its twin without: the serialisation must equal the reference document and, fed back as str, slice, reader, owned Value, &Value and through the C API, give an equal context, identical re-serialisation, the same values and the same answers for ~190 filters. Bad JSON: every single mutation of three documents' trees (each node replaced by 15 other JSON values, wrapped, unwrapped, deleted, keys renamed / duplicated / reordered, elements duplicated), every byte-prefix truncation, `$lists` sections with type descriptors of 0..130 layers and malformed entries: never a panic, rejected whenever the reference reading says it cannot denote the declared types, and after every call each stored value passes a deep type walk.",
+            "Reference document builder and reader in checks/c14.rs (dual encodings included). A value tree has no key order. Known finding: `$lists` through a serde_json::Value (see known_findings.jsonl).",
+            "DESIGN.md §5 C14"),
+    "C15": ("exploration",
+            "exhaustive enumeration of types by layer string; independent bit packing and JSON; scheme families through five feeds",
+            "Every type with <=9 (quick) / <=13 (thorough) container layers x 4 primitives (4 092 / 65 532 types) and structured families up to 32 layers: Type <-> CompoundType <-> C type conversions are mutual inverses, the C constructors composed layer by layer equal CType::from(Type) bit for bit and equal an independently computed bit string, JSON equals the reference and reads back through from_str / from_slice / from_reader / Value / &Value and the C serialiser. Descriptors of 33..130 layers: an error or (33) the faithful type - never a panic, never a different type. Schemes: every ordered selection of <=3 of 8 hostile names (dotted, long, non-ASCII, quote, backslash, `$lists`) x type / optional variants and a 40-field scheme through five feeds (names, order, types, optionality, indexes, identical re-serialisation); duplicate names refused by every text feed; malformed documents never panic.",
+            "Bit layout as documented in DESIGN.md §5 C15; field order through a Value tree is compared as a set (serde_json::Value sorts keys).",
+            "DESIGN.md §5 C15"),
+    "C16": ("model_checking",
+            "BFS over registration histories replayed on the real builder, states deduplicated on the observed registry",
+            "All sequences of up to 5 (quick) / 6 (thorough) operations out of 21 (add_field / add_optional_field / add_function over six colliding names x, x.y, x.y.z, X, xy, x_y; three list registrations, one of them for an already used type): each transition replays the history on a fresh real SchemeBuilder, compares every add_* result (success / which kind already holds the name / list redefinition) and the built scheme's fields(), functions(), lists(), counts and indexes with the reference registry; at every node up to length 4 (5) the scheme is interrogated with 19 names (prefixes, extensions, case variants, blanks) through get_field, get_function, get_list, uses and by parsing `name == 1`, `name == \"a\"`, `name(\"a\") == \"a\"`; scheme equality only between clones.",
+            "Registry states are merged when the built scheme exposes the same fields / functions / lists with the same indexes.",
+            "DESIGN.md §5 C16"),
+    "C17": ("model_checking",
+            "exhaustive registrations x programs x names with recorded matcher queries; BFS over matcher-state histories on real contexts",
+            "All 16 registration orders / subsets of a harness list (named sets, records every query) for Int, Ip, Bytes (matchers are routed by registration index; the same names hold different contents per type) x every left-hand-side shape (field, index path, [*] paths, call, call over [*]) x 7 list names x 36 contexts: results equal set membership per element, the recorded (name, value) queries equal the reference in order, types without a list are rejected at parse time; every list name of length <=3 over {a,z,0,_,.} plus an invalid set in four syntactic positions; built-in always / never lists on every shape, also on deserialised, cloned and cleared-and-refilled contexts; BFS (depth 5 / 7) over {insert into a named set, set / unset a field, clear, serialise -> deserialise into a fresh context, clone} for three registrations, all in-list filters evaluated after every step, dedup on the serialised context.",
+            "The harness matcher's own (de)serialisation is serde-derived; state key = context serialisation.",
+            "DESIGN.md §5 C17"),
     "C12": ("exploration",
             "exhaustive program corpus x every field name; oracle from the generating structure",
             "Every program of the sole-occurrence family (the only mention of a field at each AST position kind - lhs, index base, 1st/2nd/3rd call argument at depth 1-3, logical argument, quantifier argument in both forms, chain operand left/middle/right, under not/parentheses - inside or outside the lhs of an `in $list`, including `in $list` below plain call arguments 2-3 calls deep) and of the shared corpus x every field of the scheme and 7 non-field names, for uses and uses_list, on FilterAst and FilterValueAst.",
